@@ -519,10 +519,17 @@ def run() -> int:
             rep.add_violation(Violation(PROP, [f"{call} {g.key()} {cex['v']}{cex['s']}"], f"{call} {g.key()} {r.get('query')} returned {short(cex.get('out'), 160)}, the definition gives {short(cex.get('want'), 160)} (solver counterexample over all {r['N']}-node graphs, replayed)", {"property": PROP, "graph": cex["g"], "call": call, "q": [cex["v"], cex["s"]], "hashseed": hashseed(), "kind": "differs"}))
     if not rep.samples:
         rep.add_sample({"note": "no sample drawn"})
+    from .. import history_runs
+
+    history_runs.run(rep, PROP)
     return rep.finish()
 
 
 def replay(payload: dict) -> int:
+    if payload.get("kind") == "history":
+        from .. import history_runs
+
+        return history_runs.replay(PROP, payload)
     g = GSpec.from_json(payload["graph"])
     call, q = payload["call"], payload["q"]
     b = BoolL3(g)
